@@ -200,7 +200,11 @@ func vh_C03_flow_single() {
 			verifAssert("C03.refused-sets-no-session-cookie", c.Name != "_oauth2_proxy")
 		}
 	}
-	// converse: own state + own cookie + everything else in order => session
+	// converse: the unmodified state and cookie of one login always pass the CSRF stage (the code
+	// is redeemed); if everything after that is in order there is a session
+	if ownState && cookieKind == 0 {
+		verifAssert("C03.converse.own-login-reaches-redemption", f.prov.redeemCalls == 1)
+	}
 	if ownState && cookieKind == 0 && f.prov.redeemErr == nil && f.prov.enrichErr == nil && f.prov.validateOK && f.emailOK && f.prov.authorized && f.prov.redeemCalls == 1 {
 		verifAssert("C03.converse", saved)
 		verifReach("converse")
